@@ -170,10 +170,15 @@ def check(prog, rep):
     rep.not_decided = ["consequences argued on paper from MERGE+FOLD: no two consecutive outputs mergeable, idempotence, coverage of every non-negative input interval"]
     merge_rule(prog, rep)
     fold_rule(prog, rep)
+    # the hull's length is stored through Event.duration: the setter keeps a timedelta exactly as given (C13-DURATION)
+    from .c13 import duration_dispatch
+
+    duration_dispatch(prog, rep)
 
 
 H = "aw_transform/heartbeats.py"
 VARIANTS = [
+    ("B Event.duration setter truncates to whole milliseconds through a float product", "aw_core/models.py", "        if isinstance(duration, timedelta):\n            self[\"duration\"] = duration", "        if isinstance(duration, timedelta):\n            self[\"duration\"] = timedelta(milliseconds=int(duration.total_seconds() * 1000))", "DURATION"),
     ("B reduce folds a sorted copy of the input", H, "    reduced = []\n    if events:", "    events = sorted(events, key=lambda e: e.timestamp)\n    reduced = []\n    if events:", "FOLD"),
     ("OK reduce folds a plain copy of the input", H, "    reduced = []\n    if events:", "    events = list(events)\n    reduced = []\n    if events:", "ok"),
     ("B fold skipped for pulsetime 0 (touching equal events still merge at pulsetime 0)", H, "    reduced = []\n", "    if len(events) < 2 or pulsetime <= 0:\n        return events\n    reduced = []\n", "FOLD"),
